@@ -89,6 +89,19 @@ func vRingPts(name string, n, closing int) (v, pts []Point) {
 func H_Member_Ring(p []int) {
 	n, closing, kind, minPts := p[0], p[1], p[2], p[3]
 	v, pts := vRingPts("v", n, closing)
+	if len(p) > 4 && p[4] != 0 {
+		// degenerate ring: every vertex on one horizontal (1) or vertical (2) line (zero-area bounding box)
+		for i := range v {
+			if p[4] == 1 {
+				v[i].Y = v[0].Y
+			} else {
+				v[i].X = v[0].X
+			}
+		}
+		for i := range pts {
+			pts[i] = v[i%n]
+		}
+	}
 	q := vPoint("q", 0)
 	if closing == 0 {
 		vAssume(v[n-1] != v[0]) // a sequence whose last point repeats the first is the closing==1 instantiation of n-1
